@@ -25,8 +25,26 @@ PART = [0, 1, 0xFFF0, 0xFFFF, 0x10000, 0x00FFFFF0, 0x01000000, 0x0E100000, "top"
 INFO = ["default", 0xFFFC, 0x00FFFFFC, "top"]
 
 
-def content(n):
-    return bytes((i * 31 + (i >> 8) * 7 + 3) & 0xFF for i in range(n))
+STYLES = ["pattern", "all-ff", "all-00", "ff-run-at-both-ends", "ff-run-across-64k", "hex-text"]
+
+
+def content(n, style="pattern"):
+    b = bytearray((i * 31 + (i >> 8) * 7 + 3) & 0xFF for i in range(n))
+    if style == "all-ff":                       # an envelope file is what it is - also when it looks like erased flash
+        b[:] = b"\xff" * n
+    elif style == "all-00":
+        b[:] = bytes(n)
+    elif style == "ff-run-at-both-ends":
+        k = min(40, n)
+        b[:k] = b"\xff" * k
+        b[n - k:] = b"\xff" * k
+    elif style == "ff-run-across-64k":
+        for i in range(max(0, 65536 - 48), min(n, 65536 + 48)):
+            b[i] = 0xFF
+    elif style == "hex-text":                   # looks like an Intel-HEX text file itself
+        t = b":020000040E10DC\n:10000000" + b"FF" * 16 + b"00\n:00000001FF\n"
+        b[:] = (t * (n // len(t) + 1))[:n]
+    return bytes(b)
 
 
 def cases(tier):
@@ -34,6 +52,13 @@ def cases(tier):
     out = []
     for i, (s, p, a, c) in enumerate(itertools.product(SIZES, PART, INFO, caches)):
         out.append({"size": s, "part": p, "info": a, "caches": c, "i": i})
+    # what the bytes of the envelope file look like (erased flash, zeros, an Intel-HEX text): sizes x partition addresses
+    i = len(out)
+    for st in STYLES[1:]:
+        for s in (1, 16, 17, 65535, 65537, 131077):
+            for p in (0, 0xFFF0, 0x00FFFFF0, 0x0E100000):
+                out.append({"size": s, "part": p, "info": "default", "caches": 1, "i": i, "style": st})
+                i += 1
     return out
 
 
@@ -43,8 +68,8 @@ def run(case, agg):
     part = (2**32 - size if size else 2**32 - 1) if case["part"] == "top" else case["part"]
     reclen = 16 + 8 * nc
     info = {"default": cmd_image.ImageCreator.default_update_candidate_info_address, "top": 2**32 - reclen}.get(case["info"], case["info"])
-    key = h8("c16", size, part, info, nc)
-    data = content(size)
+    key = h8("c16", size, part, info, nc, case.get("style"))
+    data = content(size, case.get("style", "pattern"))
     with fresh_dir("c16") as d:
         from .. import impl as _impl
         inp, sto, dfu = (os.path.join(d, _impl.odd_name(st, ext, case["i"])) for st, ext in (("e", "suit"), ("storage", "hex"), ("dfu", "hex")))
